@@ -1,6 +1,7 @@
 import QModel.C03
 import Mathlib.Tactic.Ring
 import Mathlib.Tactic.Linarith
+import Mathlib.Algebra.Ring.Defs
 /-!
 # C03 — helper lemmas (floor division facts, free-entry predicates, bijectivity of the GENERATED index maps,
 numpy reshape/flatten lemmas, generated `num_variables_*` as natural numbers)
@@ -547,6 +548,86 @@ theorem povm_stacked_prefix [Add K] [Sub K] [Zero K] (d : Nat) (sq : K) (var st 
 
 /-- flat position of an entry (k, row, col) of `k` stacked `n × n` arrays -/
 def flat3 (n : Int) (a : Int × Int × Int) : Int := a.1 * (n * n) + a.2.1 * n + a.2.2
+
+
+/-! ## perturbations and one-hot vectors (gradient theorems) -/
+/-- `t • l` -/
+def lsmul [Mul K] (t : K) (l : List K) : List K := l.map (t * ·)
+/-- `v + t·e_i` -/
+def perturb [Add K] [Mul K] [Zero K] [One K] (v : List K) (i : Nat) (t : K) : List K :=
+  vadd v (lsmul t (oneHot v.length i))
+
+theorem oneHot_succ [Zero K] [One K] (n i : Nat) : (oneHot (n + 1) (i + 1) : List K) = 0 :: oneHot n i := by
+  unfold oneHot
+  rw [List.range_succ_eq_map]
+  simp [Function.comp_def]
+
+theorem oneHot_shift [Zero K] [One K] (k n i : Nat) :
+    (oneHot (k + n) (k + i) : List K) = List.replicate k 0 ++ oneHot n i := by
+  induction k with
+  | zero => simp
+  | succ k ih =>
+    have e1 : k + 1 + n = (k + n) + 1 := by omega
+    have e2 : k + 1 + i = (k + i) + 1 := by omega
+    rw [e1, e2, oneHot_succ, ih, List.replicate_succ]; rfl
+
+theorem vadd_append [Add K] (a b c e : List K) (h : a.length = c.length) :
+    vadd (a ++ b) (c ++ e) = vadd a c ++ vadd b e := by
+  unfold vadd; exact List.zipWith_append h
+
+theorem vadd_zero_smul [CommRing K] (a : List K) (t : K) :
+    vadd a (lsmul t (List.replicate a.length 0)) = a := by
+  unfold vadd lsmul
+  induction a with
+  | nil => simp
+  | cons x a ih => simp at ih; simp [List.replicate_succ, ih]
+
+/-- the model's gate gradient is the one-hot vector at that position (for every variable index in range) -/
+theorem gradGate_eq [Zero K] [One K] (d i : Nat) (f : Bool) (hd : 0 < d)
+    (hi : (i : Int) < num_variables_qpt d f) :
+    (gradGate d i f : Option (List K)) = some (oneHot (hsSize d) (if f then d ^ 2 + i else i)) := by
+  have hdI : (0 : Int) < (d : Int) := by exact_mod_cast hd
+  obtain ⟨hfree, _⟩ := gate_v2o (d : Int) (i : Int) f hdI (by omega) hi
+  have hn : (0 : Int) < (d : Int) ^ (2:Nat) := Int.pow_pos hdI
+  obtain ⟨h1', h2, h3⟩ := fdm_spec (i : Int) ((d : Int) ^ (2:Nat)) hn
+  have hpos : flat2 ((d : Int) ^ (2:Nat)) (convert_var_index_to_gate_index d i f) =
+      (i : Int) + (if f = true then ((d ^ 2 : Nat) : Int) else 0) := by
+    unfold flat2 convert_var_index_to_gate_index
+    dsimp only
+    push_cast
+    generalize ((d : Int) ^ (2:Nat)) = n at *
+    generalize (i : Int).fdiv n = q at *
+    generalize (i : Int).fmod n = r at *
+    have e1 : q * n = n * q := Int.mul_comm _ _
+    have e2 : (q + 1) * n = n * q + n := by ring
+    cases f
+    · simp only [Bool.false_eq_true, ↓reduceIte]; omega
+    · simp only [↓reduceIte]; omega
+  unfold GateFree at hfree
+  unfold gradGate natOf?
+  dsimp only
+  generalize convert_var_index_to_gate_index (↑d) (↑i) f = ix at *
+  obtain ⟨r, c⟩ := ix
+  simp only at hfree
+  have hcast : (((d ^ 2 : Nat)) : Int) = (d : Int) ^ (2:Nat) := by push_cast; rfl
+  have hr0 : 0 ≤ r := by cases f <;> simp at hfree <;> omega
+  simp only [hcast]
+  rw [if_pos ⟨hr0, hfree.2.1⟩, if_pos ⟨hfree.2.2.1, hfree.2.2.2⟩]
+  simp only [Option.bind_eq_bind, Option.bind_some, Option.some.injEq]
+  congr 1
+  unfold flat2 at hpos
+  simp only at hpos
+  have : ((r.toNat * d ^ 2 + c.toNat : Nat) : Int) = r * (d : Int) ^ (2:Nat) + c := by
+    push_cast
+    rw [Int.toNat_of_nonneg hr0, Int.toNat_of_nonneg hfree.2.2.1]
+  cases f
+  · simp only [Bool.false_eq_true, ↓reduceIte, Int.add_zero] at hpos ⊢
+    have h : ((r.toNat * d ^ 2 + c.toNat : Nat) : Int) = (i : Int) := by rw [this, hpos]
+    exact_mod_cast h
+  · simp only [↓reduceIte] at hpos ⊢
+    have h : ((r.toNat * d ^ 2 + c.toNat : Nat) : Int) = ((d ^ 2 + i : Nat) : Int) := by
+      rw [this, hpos]; push_cast; ring
+    exact_mod_cast h
 
 
 end QM.C03
